@@ -33,6 +33,9 @@ RULE = (
     "with 2/4/16 workers and switch interval 1e-5; reversed and random submission order; one score at a time, synchronous and threaded). "
     "Cross-validators and train_test_split are driven with random_state as an int, a numpy RandomState instance and None (global generator, "
     "re-seeded so that serial / delayed / respelled replays are well defined); the splits judged are those the cv object actually yielded. "
+    "Defaults stream: SplineCV(), cross_val_score(est, c, d), score(c, d), train_test_split(c, d) must behave like the same call with the "
+    "documented defaults spelled out (the taps bind omitted arguments to the documented default). Scorer objects (make_scorer / get_scorer / "
+    "hand-written callable) are forced into SplineCV; the lazy scores of several cross_val_score calls are also computed in one dask graph. "
     "Lazy-scan histories: one estimator object is reused for a parameter scan (cross_val_score(delayed=True) per value, re-configured by "
     "set_params / attribute / its held step in between), then changed once more (re-configured, fitted, data or weights overwritten in place) "
     "and only then are all lazy scores computed; likewise SplineCV(delayed=True) re-configured / data overwritten before scores_ are computed: "
@@ -89,6 +92,11 @@ FLOORS = {
                      "class:splinecv:engine:numpy": 1, "class:splinecv:scoring_with_weights": 2, "class:splinecv:several_mindists": 1,
                      "class:delayed_spelling:bool": 2},
                   **{"class:scoring_spelling:" + k: 4 for k in ("none", "string", "get_scorer", "make_scorer", "plain_callable")},
+                  # documented defaults relied upon, scorer objects in SplineCV, several calls in one dask graph
+                  **{"eval:defaults:" + k: 1 for k in ("SplineCV_constructor", "SplineCV_fit", "cross_val_score", "score", "train_test_split")},
+                  **{"class:splinecv:scorer_object:" + k: 1 for k in ("make_scorer", "get_scorer", "plain_callable")},
+                  **{"eval:several_calls_in_one_graph": 14, "defaulted_argument:cross_val_score.cv": 3, "defaulted_argument:cross_val_score.scoring": 3,
+                     "defaulted_argument:cross_val_score.delayed": 20, "defaulted_argument:train_test_split.spacing": 20},
                   # lazy scores consumed after the estimator / SplineCV object / data were changed
                   **{"eval:lazy_score_is_of_call_time": 25, "class:lazy_consumed_after:cross_val_score:reconfigure": 2,
                      "class:lazy_consumed_after:cross_val_score:fit_on_the_data": 1, "class:lazy_consumed_after:cross_val_score:data_in_place": 1,
@@ -121,6 +129,9 @@ FLOORS = {
         **{"class:tts_sizes:%s:%s" % (m, k): 68 for m in ("plain", "blocked") for k in W.SIZE_MODES}, **{"eval:split_sizes": 800},
         **{"class:random_state:tts:%s:%s" % (k, m): 160 for k in W.RS_KINDS for m in ("plain", "blocked")},
         **{"class:random_state:cv:" + k: 200 for k in W.RS_KINDS},
+        **{"eval:defaults:" + k: 38 for k in ("SplineCV_constructor", "SplineCV_fit", "cross_val_score", "score", "train_test_split")},
+        **{"class:splinecv:scorer_object:" + k: 16 for k in ("make_scorer", "get_scorer", "plain_callable")},
+        **{"eval:several_calls_in_one_graph": 400, "defaulted_argument:cross_val_score.cv": 76, "defaulted_argument:cross_val_score.scoring": 76},
         **{"eval:lazy_score_is_of_call_time": 600, "class:lazy_consumed_after:cross_val_score:reconfigure": 30,
            "class:lazy_consumed_after:cross_val_score:fit_on_the_data": 25, "class:lazy_consumed_after:cross_val_score:data_in_place": 20,
            "class:lazy_consumed_after:splinecv:any_change": 100, "class:lazy_consumed_after:splinecv:set_params": 30,
@@ -191,8 +202,8 @@ CASE_TIMEOUT_S = 300
 
 def plan(tier):
     if tier == "quick":
-        return collections.OrderedDict(cv=44, score=12, tts=10, splinecv=12, history=10, lazyscan=16)
-    return collections.OrderedDict(cv=1600, score=400, tts=400, splinecv=480, client=32, history=320, lazyscan=256)
+        return collections.OrderedDict(cv=38, score=12, tts=10, splinecv=12, history=8, lazyscan=12, defaults=4)
+    return collections.OrderedDict(cv=1600, score=400, tts=400, splinecv=480, client=32, history=320, lazyscan=256, defaults=96)
 
 
 def install(tap, run):
@@ -214,6 +225,8 @@ def run_case(run, tap, stream, index, rng):
                 W.case_tts(run, rng, vd, index)
             elif stream == "splinecv":
                 W.case_splinecv(run, rng, vd, index=index)
+            elif stream == "defaults":
+                W.case_defaults(run, rng, vd, index)
             elif stream == "lazyscan":
                 W.case_lazy_scan(run, rng, vd, index)
             elif stream == "history":
